@@ -7,6 +7,13 @@ import KafkaVerif.Lemmas.WriterTrack
 import KafkaVerif.Model.ReaderClose
 import KafkaVerif.Lemmas.ReaderClose
 import KafkaVerif.Lemmas.GroupRunMeasure
+import KafkaVerif.Lemmas.GroupRunStruct
+import KafkaVerif.Lemmas.TransportLife
+import KafkaVerif.Gen.CloseFacts
+import KafkaVerif.Model.FetcherLife
+import KafkaVerif.Lemmas.FetcherLife
+import KafkaVerif.Lemmas.ReaderCloseSystem
+import KafkaVerif.Lemmas.GroupConns
 
 namespace KV.C09
 open KV.WriterClose
@@ -235,6 +242,26 @@ theorem all_completed_before_close_return (cfg : Cfg) (s s' : State) (hr : Reach
     | false => rfl
     | true => exact absurd hg (h1 c hc)
 
+/-- **writer_resources_released** — in every reachable state in which Close has returned (at that moment and ever
+after, whatever calls still arrive) the WaitGroup is 0: no call is between enter and leave, no sender goroutine and no
+awaitBatch goroutine of the model is alive — no goroutine started by the Writer outlives its Close. -/
+theorem writer_resources_released (cfg : Cfg) (hfix : cfg.fixed = true) (s : State) (hr : Reachable cfg s)
+    (h3 : s.close = 3) :
+    s.wg = 0 ∧ (∀ p ∈ s.writers, p.live = false) ∧ s.awaiters = [] ∧ (∀ c ∈ s.calls, c.holdsGroup = false) := by
+  have h0 := reachable_returned_quiescent cfg hfix s hr h3
+  simp only [State.wg] at h0
+  have h1 : s.calls.countP Call.holdsGroup = 0 := by omega
+  have h2 : s.writers.countP PW.live = 0 := by omega
+  have h4 : s.awaiters.length = 0 := by omega
+  rw [List.countP_eq_zero] at h1 h2
+  refine ⟨by simp only [State.wg]; omega, ?_, List.length_eq_zero_iff.mp h4, ?_⟩
+  · intro p hp; cases hl : p.live with
+    | false => rfl
+    | true => exact absurd hl (h2 p hp)
+  · intro c hc; cases hg : c.holdsGroup with
+    | false => rfl
+    | true => exact absurd hg (h1 c hc)
+
 example : ∃ s, Reachable ⟨3, 2, true, false⟩ s ∧ s.close = 2 ∧ s.wg ≠ 0 :=
   ⟨_, ⟨[.callBegin 1 [(10, 0)] false, .enter 1, .batch 1, .closeBegin, .closeMark], rfl⟩, by decide, by decide⟩
 
@@ -302,6 +329,13 @@ theorem enter_after_close_ErrClosedPipe (cfg : Cfg) (s s' : State) (c : Nat) (hc
     · rw [if_neg hq]
       exact hx
 
+/-- **after_close_ErrClosedPipe** — over whole runs: a WriteMessages call invoked once the writer is marked closed
+(in particular after Close has returned) can only ever return io.ErrClosedPipe, in every reachable state. -/
+theorem after_close_ErrClosedPipe (cfg : Cfg) (s : State) (hr : Reachable cfg s) (x : Call) (hx : x ∈ s.calls)
+    (hb : x.bornClosed = true) (r : Res) (hp : x.phase = .returned r ∨ x.phase = .left r) : r = .closedPipe := by
+  have := (reachable_born cfg s hr).phase x hx hb
+  rcases this with h | h | h <;> rcases hp with h' | h' <;> rw [h] at h' <;> cases h' <;> rfl
+
 /-- a call blocked in its metadata lookup or waiting for its batches can return the context's error as soon as
 its context is cancelled -/
 theorem ctx_returns (cfg : Cfg) (s : State) (x : Call) (hx : x ∈ s.calls) (hc : x.cancelled = true) :
@@ -341,11 +375,14 @@ theorem resources_released (g : Bool) (s : State) (hr : Reachable g s) (hc : s.c
 connection of the model is open: `coordinator()`, `nextGeneration` and `leaveGroup` close what they opened on
 every path. -/
 theorem loop_exit_closes_connections (g : Bool) (s : State) (hr : Reachable g s) (hl : s.loop = 0) :
-    s.lconns = 0 ∧ s.member = none :=
+    s.lconns = 0 ∧ (s.member = none ∨ s.leaveFail = true) :=
   ⟨((reachable_inv g s hr).loop0 hl).2.2, ((reachable_inv g s hr).loop0 hl).1⟩
 
-/-- **left_group_on_close** — when Close has returned the group loop holds no member id any more … -/
-theorem left_group_on_close (g : Bool) (s : State) (hr : Reachable g s) (hc : s.close = 3) : s.member = none := by
+/-- **left_group_on_close** — when Close has returned the group loop holds no member id any more (it left the group,
+or the id was dropped as below), unless the coordinator lookup that `leaveGroup` needs failed since the last
+successful join (an unreachable coordinator cannot be told) … -/
+theorem left_group_on_close (g : Bool) (s : State) (hr : Reachable g s) (hc : s.close = 3) :
+    s.member = none ∨ s.leaveFail = true := by
   have hi := reachable_inv g s hr
   exact (hi.loop0 (hi.done hc).2.1).1
 
@@ -487,15 +524,219 @@ theorem group_run_terminates (c : Group.Cfg) (s s' : St) (e : Ev) (h : Group.ste
   simp only [Group.step, Option.ite_none_right_eq_some, Bool.and_eq_true, beq_iff_eq] at h
   exact h.1.1
 
-/-- **group_run_progress_partial** — once the group is closed the `run` goroutine always has an enabled step of
-its own (the coordinator answers it waits for count as such: every network call returns), except inside
-`gen.close()` (waits for the generation's functions: C15 `close_returns_after_all_exits`) and while it starts the
-generation's internal functions.  Partial: those two phases, and the structural facts `coord stage ≤ 2`, `a
-generation exists` are hypotheses here (they are invariants of C15's model). -/
-theorem group_run_progress_partial (c : Group.Cfg) (s : St) (hc : s.closedCG = true) (hx : s.pc ≠ .exited)
-    (hw : ∀ ret r, s.pc ≠ .waiting ret r) (hs : ∀ k, s.pc ≠ .starting k) (hcur : 0 < s.gens)
-    (hk : ∀ k lv, s.pc = .coord k lv → k ≤ 2) :
-    ∃ e, e.runLoop = true ∧ (Group.step c s e).isSome :=
-  run_progress_when_closed c s hc hx hw hs hcur hk
+/-- **group_run_progress_partial** — once the group is closed, in every *reachable* state whose pc is not `exited`
+and not inside `gen.close()` the `run` goroutine has an enabled step of its own: a coordinator answer it waits for
+(every network call returns), the start of the generation's next internal function, or a step of its loop.  The
+structural facts this needs (coordinator stage ≤ 2, a generation exists while the pc is inside one, the generation is
+untouched until its heartbeat function is started) are the inductive invariant `Inv3` (`Lemmas/GroupRunStruct.lean`).
+Partial: inside `gen.close()` (pc `waiting`) `run` waits for the generation's functions to run their exit sections —
+C15's `close_returns_after_all_exits` says it returns once they have; that each of them can (heartbeat loop, watchers,
+the Reader's commit loop and unsubscribe function react to the cancelled generation context) is per-function
+reasoning in C15/C03, not repeated here. -/
+theorem group_run_progress_partial (c : Group.Cfg) (s : St) (hr : Group.Reachable c s) (hc : s.closedCG = true)
+    (hx : s.pc ≠ .exited) (hw : ∀ ret r, s.pc ≠ .waiting ret r) :
+    ∃ e, (e.runLoop = true ∨ ∃ g acc, e = .gStart g acc) ∧ (Group.step c s e).isSome :=
+  run_progress_reachable c s hr hc hx hw
+
+end KV.C09
+
+/-! ## Transport connections (Model/TransportConnC17.lean: the LTS over the T.* hook events of transport.go) -/
+namespace KV.C09
+open KV.TransportConn
+
+/-- **released_refused_exits** — when `releaseConn` refuses a connection (its group was closed by
+`CloseIdleConnections` / `Writer.Close` / a metadata update while a request was in flight) the connection is
+`closing` and the only event it can still take is `Exit` (its `run` loop returns, the network connection is closed). -/
+theorem transport_released_refused_exits (f : TFacts) (s s' : TransportConn.State) (c : Nat)
+    (h : TransportConn.step f s (.release c false) = some s') :
+    get s' c = some .closing ∧
+    ∀ e s'', TransportConn.step f s' e = some s'' → connOf e = some c → e = .exit c ∧ get s'' c = some .exited :=
+  released_refused_exits f s s' c h
+
+/-- a closing connection (release refused, idle timer, group closed while idle) stays closing until it exits, and an
+exited one stays exited: no goroutine or connection of the model comes back after the pool was closed -/
+theorem transport_closing_only_exits (f : TFacts) (s s' : TransportConn.State) (e : Ev) (c : Nat)
+    (hcl : get s c = some .closing) (h : TransportConn.step f s e = some s') :
+    get s' c = some .closing ∨ (e = .exit c ∧ get s' c = some .exited) :=
+  closing_only_exits f s s' e c hcl h
+
+theorem transport_exited_is_final (f : TFacts) (s s' : TransportConn.State) (e : Ev) (c : Nat)
+    (hx : get s c = some .exited) (h : TransportConn.step f s e = some s') : get s' c = some .exited :=
+  exited_is_final f s s' e c hx h
+
+example : (TransportConn.run ⟨true⟩ [] [.new 1 1, .recv 1, .closeIdle 1, .done 1 true false, .release 1 false, .exit 1]).map
+    (fun s => get s 1) = some (some .exited) := by decide
+
+end KV.C09
+
+/-! ## Regenerated tie: the structural facts of the source the models take for granted
+(`go/extract/closeproto` → `Gen/CloseFacts.lean`, re-extracted from /repo on every run) -/
+namespace KV.C09
+open KV.WriterClose
+
+/-- every structural fact extracted from writer.go / reader.go / consumergroup.go / transport.go holds: enter checks
+`closed` under the mutex before `group.Add`; `spawn` brackets the goroutine with Add/Done; `batchMessages` re-checks
+`closed`; `Close` marks, closes and removes every partition writer and then waits; a partition writer's close flushes
+before it closes the queue; FetchMessage answers io.EOF when closed; Reader.Close order; `run` leaves the group before
+every exit; `leaveGroup`/`nextGeneration`/`coordinator` close their connections on every path; `conn.run` leaves its
+loop when `releaseConn` refuses; the waits of WriteMessages / FetchMessage / CommitMessages / `await` /
+`grabConnOrConnect` select on the context. -/
+theorem close_protocol_facts_hold : Gen.CloseFacts.all.all (·.2) = true := by decide
+
+/-- the Writer protocol the source has now is the repaired one (`Cfg.fixed` is the extracted fact) … -/
+def sourceCfg (maxAttempts batchSize : Nat) (async : Bool) : Cfg :=
+  ⟨maxAttempts, batchSize, Gen.CloseFacts.batchRechecksClosed, async⟩
+
+/-- … so `close_terminates` applies to it, for every MaxAttempts, BatchSize, sync/async -/
+theorem close_terminates_for_source (ma bs : Nat) (async : Bool) (s : State) (hr : Reachable (sourceCfg ma bs async) s)
+    (hwait : s.close = 2) :
+    ((step (sourceCfg ma bs async) s .closeReturn).isSome ∨
+      (∃ e, e.progress = true ∧ (step (sourceCfg ma bs async) s e).isSome)) ∧
+    (∀ e s', e.internal = true → step (sourceCfg ma bs async) s e = some s' →
+      mu (sourceCfg ma bs async) s' < mu (sourceCfg ma bs async) s) :=
+  close_terminates (sourceCfg ma bs async) (show Gen.CloseFacts.batchRechecksClosed = true by decide) s hr hwait
+
+end KV.C09
+
+/-! ## Partition fetchers: `(*reader).run` (Model/FetcherLife.lean, events = the RL.* hook points) -/
+namespace KV.C09
+open KV.FetcherLife
+
+/-- **fetcher_terminates_after_cancel** — once the fetcher's context is done (`Reader.Close`, a newer `start`,
+unsubscribe) every control step strictly decreases `rank`: the fetcher returns after at most 10 further control steps
+(the hand-overs `msg`/`sendErr` of the fetch response being processed do not change the control state). -/
+theorem fetcher_terminates_after_cancel (s s' : FetcherLife.State) (e : FetcherLife.Event) (hc : s.cancelled = true)
+    (he : e.control = true) (h : FetcherLife.step s e = some s') :
+    FetcherLife.rank s' < FetcherLife.rank s ∧ s'.cancelled = true :=
+  FetcherLife.terminates_after_cancel s s' e hc he h
+
+/-- … and it is never blocked: while not exited a control step is enabled (the dial fails or succeeds, the read
+returns — every network call returns — or the pending `sleep` sees the context done) -/
+theorem fetcher_progress_after_cancel (s : FetcherLife.State) (hc : s.cancelled = true) (hx : s.pc ≠ .exited) :
+    ∃ e, e.control = true ∧ (FetcherLife.step s e).isSome :=
+  FetcherLife.progress_after_cancel s hc hx
+
+/-- one step keeps "a connection is owned only inside the read loop" -/
+theorem fetcher_conn_step (s s' : FetcherLife.State) (e : FetcherLife.Event)
+    (hi : s.connOpen = true → s.pc = .inLoop ∨ s.pc = .iterating ∨ s.pc = .oor ∨ s.pc = .afterOffsets)
+    (h : FetcherLife.step s e = some s') :
+    s'.connOpen = true → s'.pc = .inLoop ∨ s'.pc = .iterating ∨ s'.pc = .oor ∨ s'.pc = .afterOffsets := by
+  obtain ⟨pc, co, ca, sa⟩ := s
+  simp only at hi
+  cases e <;> simp only [FetcherLife.step] at h
+  case ctxCancel => injection h with h; subst h; exact hi
+  case sendErr => split at h <;> simp at h; subst h; exact hi
+  case msg => split at h <;> simp at h; subst h; exact hi
+  case top a => split at h <;> simp at h; subst h; intro hco; simp at hco
+  case cancel => split at h <;> simp at h; subst h; intro hco; simp at hco
+  case init ok =>
+    split at h <;> simp at h
+    rename_i hg
+    subst h
+    cases ok
+    · intro hco
+      simp only [Bool.false_eq_true, if_false] at hco ⊢
+      have := hi hco
+      rw [hg.1] at this; simp at this
+    · intro _; simp
+  case iter => split at h <;> simp at h; subst h; intro _; simp
+  case read c =>
+    split at h <;> simp at h
+    subst h
+    cases c <;> simp
+  case offsets ok =>
+    split at h <;> simp at h
+    subst h
+    cases ok <;> simp
+
+/-- **fetcher_exit_closes_conn** — in every reachable state the fetcher owns a connection only inside its read
+loop; in particular a fetcher that has returned has closed its connection (every exit path, cancelled or not). -/
+theorem fetcher_exit_closes_conn (s : FetcherLife.State) (hr : FetcherLife.Reachable s) :
+    (s.connOpen = true → s.pc = .inLoop ∨ s.pc = .iterating ∨ s.pc = .oor ∨ s.pc = .afterOffsets) ∧
+    (s.pc = .exited → s.connOpen = false) := by
+  obtain ⟨es, hrun⟩ := hr
+  have key : ∀ (es : List FetcherLife.Event) (s0 s : FetcherLife.State),
+      (s0.connOpen = true → s0.pc = .inLoop ∨ s0.pc = .iterating ∨ s0.pc = .oor ∨ s0.pc = .afterOffsets) →
+      FetcherLife.run s0 es = some s →
+      (s.connOpen = true → s.pc = .inLoop ∨ s.pc = .iterating ∨ s.pc = .oor ∨ s.pc = .afterOffsets) := by
+    intro es
+    induction es with
+    | nil => intro s0 s h0 hr; simp only [FetcherLife.run, Option.some.injEq] at hr; subst hr; exact h0
+    | cons e es ih =>
+      intro s0 s h0 hr
+      simp only [FetcherLife.run] at hr
+      cases hs : FetcherLife.step s0 e with
+      | none => simp [hs] at hr
+      | some s1 => simp only [hs] at hr; exact ih s1 s (fetcher_conn_step s0 s1 e h0 hs) hr
+  have h1 := key es {} s (by intro h; simp at h) hrun
+  refine ⟨h1, ?_⟩
+  intro hx
+  cases hco : s.connOpen with
+  | false => rfl
+  | true => have := h1 hco; rw [hx] at this; simp at this
+
+example : (FetcherLife.run {} [.top 0, .init true, .iter, .msg, .read .cont, .ctxCancel, .iter, .cancel]).map
+    (fun s => (s.pc, s.connOpen)) = some (.exited, false) := by decide
+
+end KV.C09
+
+/-! ## Coordinator connections of ConsumerGroup.run (Model/GroupConns.lean over the group builder's GroupRun) -/
+namespace KV.C09
+open KV.GroupConns
+
+/-- **group_connections_accounted** — in every reachable state of `run` with its dialer journal: the connections
+journalled as opened, plus successful connects not yet journalled, equal the connections journalled as closed, plus
+closes the code has performed but the journal has not shown yet, plus the connections held at the current program
+point (bootstrap connection inside `coordinator()`, coordinator connection of `nextGeneration` / `leaveGroup`). -/
+theorem group_connections_accounted (c : Group.Cfg) (cs : CS) (h : ReachableC c cs) :
+    cs.opened + cs.owedOpen = cs.closed + cs.owedClose + held cs.g.pc :=
+  (k_reachable c cs h).acct
+
+/-- **group_connections_closed_at_exit** — once `run` has returned (the only state in which `ConsumerGroup.Close`
+returns) every coordinator connection it ever opened has been closed, on every path — LeaveGroup answered, rejected
+or failed, the coordinator lookup failed, join / sync / offset-fetch errors, rebalances. -/
+theorem group_connections_closed_at_exit (c : Group.Cfg) (cs : CS) (h : ReachableC c cs) (hx : cs.g.pc = .exited) :
+    cs.opened = cs.closed ∧ cs.owedOpen = 0 ∧ cs.owedClose = 0 := by
+  have k := k_reachable c cs h
+  obtain ⟨h1, h2⟩ := k.gone hx
+  have := k.acct
+  simp [hx, held, bootPC, connPC, b2n, h1, h2] at this
+  exact ⟨this, h1, h2⟩
+
+example : (runC ⟨0, true⟩ {} [.ev (.connectRes none), .copen, .ev (.findRes none), .ev (.connectRes none), .copen, .cclose,
+    .ev (.joinErr "" .kafka), .cclose, .ev (.nextGenRet "" (some .kafka)), .ev (.leave ""), .ev .closeCall,
+    .ev (.errDeliver .kafka false), .ev (.leave ""), .ev .runExit]).map (fun s => (s.opened, s.closed)) = some (2, 2) := by
+  decide
+
+end KV.C09
+
+/-! ## Reader.Close as a system of its components (Model/ReaderCloseSystem.lean) -/
+namespace KV.C09
+open KV
+
+/-- **reader_system_close_terminates** — `Reader.Close` over its components (fetchers = Model/FetcherLife, the group's
+`run` goroutine = the group builder's Model/GroupRun, glued as in `(*Reader).Close`): in every state satisfying the
+system invariant (after the mark every fetcher's context is done, the group is closed and its state reachable), every
+internal step of any component, `closeMsgs` and `closeReturn` strictly lower
+`mu` = Σ fetcher ranks + runMu(group) + pending close steps. -/
+theorem reader_system_close_terminates (c : Group.Cfg) (s s' : ReaderCloseSystem.State) (e : ReaderCloseSystem.Event)
+    (hi : ReaderCloseSystem.Inv c s) (hm : s.close = 2) (he : ReaderCloseSystem.internal e = true)
+    (h : ReaderCloseSystem.step c s e = some s') : ReaderCloseSystem.mu c s' < ReaderCloseSystem.mu c s :=
+  ReaderCloseSystem.mu_decreases c s s' e hi hm he h
+
+/-- the invariant holds initially and is preserved by every step of the system -/
+theorem reader_system_invariant (c : Group.Cfg) (grp : Bool) :
+    ReaderCloseSystem.Inv c { group := if grp then some {} else none } ∧
+    ∀ s s' e, ReaderCloseSystem.Inv c s → ReaderCloseSystem.step c s e = some s' → ReaderCloseSystem.Inv c s' :=
+  ⟨ReaderCloseSystem.inv_init c grp, fun s s' e hi h => ReaderCloseSystem.inv_step c s s' e hi h⟩
+
+/-- **reader_system_close_progress** — while Close waits after the mark, a control step of a fetcher, a step of the
+group's `run` goroutine (or the start of a generation's internal function), `closeMsgs` or `closeReturn` is enabled —
+except while `run` is inside `gen.close()` (C15 `close_returns_after_all_exits`). -/
+theorem reader_system_close_progress (c : Group.Cfg) (s : ReaderCloseSystem.State) (hi : ReaderCloseSystem.Inv c s)
+    (hm : s.close = 2) (hw : ∀ g, s.group = some g → ∀ ret r, g.pc ≠ .waiting ret r) :
+    ∃ e, (ReaderCloseSystem.internal e = true ∨ ∃ gi acc, e = .group (.gStart gi acc)) ∧
+      (ReaderCloseSystem.step c s e).isSome :=
+  ReaderCloseSystem.system_progress c s hi hm hw
 
 end KV.C09
